@@ -1,3 +1,184 @@
+import PB.Model.Modules
 import PB.Drv.Loop
-/- Driver stub for C01 (model not built yet): every op is rejected. -/
-def main : IO Unit := PB.Drv.lineLoop (fun _ => "bad-op")
+/-!
+Driver for C01: acceptor for recorded histories of the module manager.
+
+`scn <n> <mgmt> <deps> <nil> …` starts a scenario; every further line is a recorded fact
+(`call`/`ret`/`beg`/`end`/`en`/`dis`/`latereg`/`obs`/`fin`) that is replayed through `PB.Modules.step`.
+Output per line: `ok`, `reject <reason> …`, or `bad-op` for anything that is not a well-formed line.
+
+Two kinds of model steps are not visible in a history and are inserted here:
+* `passEnd` (the manager leaves a fix-point loop): tried when the recorded event is not enabled,
+* the `beg`/`fin` pair of a module whose callback is `nil` (nothing is recorded for it): fired as soon as
+  the module is ready, as long as the pass has not seen an error (the generator plans no prep/start
+  failures in scenarios with nil prep/start callbacks, so this resolution is deterministic).
+-/
+namespace PB.Drv.C01
+open PB.Modules
+
+structure D where
+  st : St
+  nilcb : Nat → Kind → Bool
+
+def parseKind : String → Option Kind
+  | "prep" => some .prep
+  | "start" => some .start
+  | "stop" => some .stop
+  | _ => none
+
+def parseApi : String → Option Api
+  | "start" => some .start
+  | "manage" => some .manage
+  | "shutdown" => some .shutdown
+  | _ => none
+
+def parseOk : String → Option Bool
+  | "ok" => some true
+  | "err" => some false
+  | "panic" => some false
+  | _ => none
+
+def parseNatList (s : String) : Option (List Nat) :=
+  if s = "-" then some [] else (s.splitOn ",").mapM String.toNat?
+
+def parseBits (s : String) : Option (List Bool) :=
+  s.toList.mapM (fun c => if c = '0' then some false else if c = '1' then some true else none)
+
+/-- `scn <n> <mgmt> <deps> <nil> …` (the remaining fields are for the executor only). -/
+def parseScn (w : List String) : Option D :=
+  match w with
+  | "scn" :: ns :: mg :: ds :: nl :: _nt :: _du :: _fl :: _ops :: [] =>
+    match ns.toNat?, parseBits mg with
+    | some n, some [mgmt] =>
+      if n > 64 then none else
+      let dparts := if n = 0 then [] else ds.splitOn "|"
+      let nparts := if n = 0 then [] else nl.splitOn "|"
+      if dparts.length ≠ n ∨ nparts.length ≠ n then none else
+      match dparts.mapM parseNatList, nparts.mapM parseBits with
+      | some dl, some nb =>
+        if dl.any (fun l => l.any (fun d => d > n)) then none
+        else if nb.any (fun l => l.length ≠ 3) then none
+        else
+          let deps : Nat → List Nat := fun i => dl.getD i []
+          let nilcb : Nat → Kind → Bool := fun i k =>
+            let l := nb.getD i []
+            match k with
+            | .prep => l.getD 0 false
+            | .start => l.getD 1 false
+            | .stop => l.getD 2 false
+          some { st := init n deps mgmt, nilcb := nilcb }
+      | _, _ => none
+    | _, _ => none
+  | _ => none
+
+/-- Fire the launch+finish of every ready module whose callback of the current pass kind is nil. -/
+def nilRound (nilcb : Nat → Kind → Bool) (s : St) : St :=
+  match passKind s.pc with
+  | none => s
+  | some k =>
+    if s.failed && k != .stop then s else
+    (List.range s.n).foldl (fun s m =>
+      if nilcb m k then
+        match stepBeg s k m with
+        | some s1 => (stepFin s1 k m true).getD s
+        | none => s
+      else s) s
+
+def nilClosure (nilcb : Nat → Kind → Bool) (s : St) : St :=
+  (List.range (s.n + 1)).foldl (fun s _ => nilRound nilcb s) s
+
+/-- Replay one recorded event, inserting the invisible steps. -/
+def attempt (nilcb : Nat → Kind → Bool) : Nat → St → Ev → Option St
+  | fuel, s, e =>
+    let s1 := nilClosure nilcb s
+    match step s1 e with
+    | some s' => some s'
+    | none =>
+      match fuel with
+      | 0 => none
+      | f + 1 =>
+        match step s1 .passEnd with
+        | some s2 => attempt nilcb f s2 e
+        | none => none
+
+def showPc : Pc → String
+  | .idle => "idle" | .prep => "prep" | .startS => "startS" | .stopM => "stopM" | .startM => "startM" | .stopX => "stopX"
+  | .done a ok => s!"done-{repr a}-{ok}"
+
+def describe (s : St) : String :=
+  let st := (List.range s.n).map (fun m => toString (s.status m))
+  s!"pc={showPc s.pc} exec={s.execCnt} rep={s.reportCnt} failed={s.failed} running={s.running} status={st}"
+
+def event (d : D) (e : Ev) (what : String) : D × String :=
+  match attempt d.nilcb 3 d.st e with
+  | some s' => ({ d with st := s' }, "ok")
+  | none => (d, s!"reject {what} model: {describe (nilClosure d.nilcb d.st)}")
+
+def b01 (b : Bool) : String := if b then "1" else "0"
+
+/-- `obs <status,…> <enabled,…> <asdep,…>`: compare with the model state. -/
+def observe (d : D) (tag st en dp : String) : D × String :=
+  let s := d.st
+  if s.n = 0 then (d, if st = "-" ∧ en = "-" ∧ dp = "-" then "ok" else "bad-op") else
+  match (st.splitOn ",").mapM String.toNat?, (en.splitOn ",").mapM String.toNat?, (dp.splitOn ",").mapM String.toNat? with
+  | some sl, some el, some dl =>
+    if sl.length ≠ s.n ∨ el.length ≠ s.n ∨ dl.length ≠ s.n then (d, "bad-op") else
+    if s.pc ≠ .idle then (d, s!"reject {tag}-while-busy model: {describe s}") else
+    let ms := (List.range s.n).map s.status
+    let me := (List.range s.n).map (fun m => if s.enabled m then 1 else 0)
+    let md := (List.range s.n).map (fun m => if s.asDep m then 1 else 0)
+    if ms ≠ sl then (d, s!"reject {tag}-status model={ms} impl={sl}")
+    else if me ≠ el then (d, s!"reject {tag}-enabled model={me} impl={el}")
+    else if md ≠ dl then (d, s!"reject {tag}-asdep model={md} impl={dl}")
+    else (d, "ok")
+  | _, _, _ => (d, "bad-op")
+
+def handleEv (d : D) (w : List String) : D × String :=
+  match w with
+  | ["call", a] => match parseApi a with
+    | some a => event d (.call a) "call"
+    | none => (d, "bad-op")
+  | ["ret", a, r] => match parseApi a, parseOk r with
+    | some api, some ok => if r = "panic" then (d, "bad-op") else event d (.ret api ok) s!"ret-{a}"
+    | _, _ => (d, "bad-op")
+  | ["beg", k, m] => match parseKind k, m.toNat? with
+    | some kk, some m => event d (.beg kk m) s!"beg-{k}"
+    | _, _ => (d, "bad-op")
+  | ["end", k, m, r] => match parseKind k, m.toNat?, parseOk r with
+    | some kk, some m, some ok => event d (.fin kk m ok) s!"end-{k}"
+    | _, _, _ => (d, "bad-op")
+  | [op, m, c] =>
+    if op = "en" ∨ op = "dis" then
+      match m.toNat?, parseBits c with
+      | some m, some [changed] =>
+        let v := (op = "en")
+        let was := d.st.enabled m
+        match attempt d.nilcb 3 d.st (if v then .enable m else .disable m) with
+        | some s' => if (was != v) = changed then ({ d with st := s' }, "ok")
+                     else (d, s!"reject {op}-changed-flag model={b01 (was != v)}")
+        | none => (d, s!"reject {op} model: {describe d.st}")
+      | _, _ => (d, "bad-op")
+    else (d, "bad-op")
+  | ["latereg", r] =>
+    if r = "ignored" then (d, if d.st.locked then "ok" else "reject latereg-ignored-before-start")
+    else if r = "accepted" then (d, "reject latereg-accepted")
+    else (d, "bad-op")
+  | ["obs", st, en, dp] => observe d "obs" st en dp
+  | ["fin", st, en, dp] => observe d "fin" st en dp
+  | ["hang"] => (d, "reject hang")
+  | ["crash"] => (d, "reject crash")
+  | _ => (d, "bad-op")
+
+def handle (d : Option D) (line : String) : Option D × String :=
+  let w := PB.Drv.words line
+  match w with
+  | "scn" :: _ => match parseScn w with
+    | some d' => (some d', "ok")
+    | none => (d, "bad-op")
+  | _ => match d with
+    | none => (none, "bad-op")
+    | some d => let (d', o) := handleEv d w; (some d', o)
+
+end PB.Drv.C01
+
+def main : IO Unit := PB.Drv.runState (none : Option PB.Drv.C01.D) PB.Drv.C01.handle
